@@ -116,6 +116,11 @@ class AccessDB:
             inf = self.inferred(region)
             if inf:
                 return inf, "inferred (tabled lock %s no longer exists)" % l
+        # a file-static object that is not in the table (renamed, or new): the lock held at the majority of its accesses
+        if gd is not None and gd.get("internal") and top is None:
+            inf = self.inferred(region)
+            if inf:
+                return inf, "inferred from the accesses (file-static object without a table row)"
         return None, None
 
     def inferred(self, region):
